@@ -68,6 +68,69 @@ theorem multi_target_union (R : Rules F V E) (pol : Policy) (hR : PerFileOnly R)
   rw [multi_target_single_run R pol files dirs h, list_is_union R pol hR]
   rfl
 
+/-! ### `_merge_targets`: what "every file once, first spelling wins" means for every argument list -/
+
+/-- merging drops no file and invents none -/
+theorem mem_merge (fs : List F) (f : F) : f ∈ merge fs ↔ f ∈ fs := by simp [merge]
+
+/-- after merging no file is linted twice, however often the arguments name it -/
+theorem merge_nodup : ∀ (fs : List F), (merge fs).Nodup
+  | [] => by simp [merge]
+  | a :: as => by
+    have : (as.filter fun b => !b == a).length < as.length + 1 :=
+      Nat.lt_succ_of_le (List.length_filter_le _ _)
+    have ih := merge_nodup (as.filter fun b => !b == a)
+    simp only [merge] at ih ⊢
+    rw [List.eraseDups_cons, List.nodup_cons]
+    exact ⟨by simp, ih⟩
+termination_by fs => fs.length
+
+/-- arguments that name every file once are left exactly as given (order included) -/
+theorem merge_of_nodup : ∀ (fs : List F), fs.Nodup → merge fs = fs
+  | [], _ => by simp [merge]
+  | a :: as, h => by
+    rw [List.nodup_cons] at h
+    have hf : as.filter (fun b => !b == a) = as := by
+      rw [List.filter_eq_self]
+      intro b hb
+      have : b ≠ a := fun e => h.1 (e ▸ hb)
+      simpa using this
+    have ih := merge_of_nodup as h.2
+    simp only [merge] at ih ⊢
+    rw [List.eraseDups_cons, hf, ih]
+
+/-- merging is idempotent -/
+theorem merge_merge (fs : List F) : merge (merge fs) = merge fs :=
+  merge_of_nodup _ (merge_nodup fs)
+
+/-- a file named both explicitly and through a directory keeps its *first* position: the explicit
+    files come first (deduplicated), then the directory files not already named -/
+theorem merge_append (files ds : List F) :
+    merge (files ++ ds) = merge files ++ merge (ds.removeAll files) := by
+  simp [merge, List.eraseDups_append]
+
+/-- **A file that is also inside a directory argument is reported once** (per-file rules): the
+    violations of a mixed run are those of the distinct explicit files followed by those of the
+    directory files that were not named explicitly. -/
+theorem file_also_in_dir_reported_once (R : Rules F V E) (pol : Policy) (hR : PerFileOnly R)
+    (files : List F) (dirs : List (List F)) (h : dirs ≠ [] ∧ (files ≠ [] ∨ dirs.length > 1)) :
+    cliLint R pol files dirs =
+      (merge files).flatMap R.perFile ++ (merge (dirs.flatten.removeAll files)).flatMap R.perFile := by
+  rw [multi_target_single_run R pol files dirs h, lintFiles_fresh, hR _, merge_append]
+  simp
+
+/-- naming the same targets twice changes nothing, for every rule set (cross-file included) -/
+theorem repeated_targets_irrelevant (R : Rules F V E) (pol : Policy) (fs : List F) :
+    (lintFiles R pol fresh (merge (fs ++ fs))).2 = (lintFiles R pol fresh (merge fs)).2 := by
+  have : merge (fs ++ fs) = merge fs := by
+    rw [merge_append]
+    have : fs.removeAll fs = [] := by
+      simp [List.removeAll, List.filter_eq_nil_iff]
+    simp [this, merge]
+  rw [this]
+
+example : merge [3, 1, 3, 2, 1] = [3, 1, 2] ∧ merge ([5, 6] ++ [6, 7, 5]) = [5, 6, 7] := by decide
+
 /-- **Same rule, both entry points**: for every linter command that reports a whole linter and
     every rule id of the code base, the CLI command's filter and `Linter.lint(rules=[<linter>])`
     pass the same violations (tables regenerated from /repo). -/
